@@ -502,6 +502,27 @@ func wireRun(c *core.Ctx, su *setup, prelude []wireStep, seqs [][]wireStep, proc
 				return true, fmt.Errorf("request %d, %s: the server received %d frames for one call; second frame %s", i, st.desc, len(got), clip(got[1]))
 			}
 			if inc {
+				// one transport error proves nothing (no real time is measured). The same call again, twice, on the
+				// same client: when the server receives the correct frame each time - so the connection carries
+				// frames, and the server answers each of them with the planned answer - and the client still ends
+				// every one of the three calls with a transport error, the answer is what the client cannot take.
+				if st.planned {
+					fails, lastErr := 1, callErr
+					for try := 0; try < 2; try++ {
+						b2 := env.count()
+						r2, v2, e2 := st.call(ctx, env.client)
+						g2 := env.since(b2)
+						_, inc2 := st.judge(s, r2, v2, e2)
+						if !inc2 || len(g2) != 1 || !bytes.Equal(g2[0], wireFrameRef(s, wireIDOf(g2[0]), st.wantQ)) {
+							break
+						}
+						fails, lastErr = fails+1, e2
+					}
+					if fails == 3 {
+						wireDrop(env)
+						return true, fmt.Errorf("request %d, %s: three calls in a row: each time the server received the reference frame of the request and wrote its answer of %d bytes (adnl.message.answer in the reference layout) on the same connection, each time the client ended the call with %q\n%s", i, st.desc, len(st.answer), lastErr, wireHistory(steps, i))
+					}
+				}
 				return true, inconclusive("transport error of the client after a correct frame")
 			}
 			if verdict != nil {
